@@ -186,7 +186,11 @@ func (f *APIRevisionFetcher) getCompositionRevisionList(ctx context.Context, cr 
 
 	if cr.GetCompositionUpdatePolicy() != nil && *cr.GetCompositionUpdatePolicy() == xpv1.UpdateAutomatic &&
 		cr.GetCompositionRevisionSelector() != nil {
-		ml = cr.GetCompositionRevisionSelector().MatchLabels
+		// A selector may not have any match labels. We copy them: we add a
+		// label below, and can't add to a nil map.
+		for k, v := range cr.GetCompositionRevisionSelector().MatchLabels {
+			ml[k] = v
+		}
 	}
 
 	ml[v1.LabelCompositionName] = comp.GetName()
